@@ -178,6 +178,8 @@ impl<D: StorageData> Storage<D> {
 
     pub fn insert_bytes(&mut self, bytes: &[u8]) -> Result<StorageIndex, DbError> {
         if let Some((free_pos, free_size)) = self.records.take_free(bytes.len() as u64) {
+            #[cfg(agdb_verif)]
+            crate::verif::hit("storage.insert.take_free");
             let record = self.records.new_record(free_pos, bytes.len() as u64);
             let id = self.transaction();
             self.write_record(&record)?;
@@ -254,6 +256,8 @@ impl<D: StorageData> Storage<D> {
         if self.is_at_end(&record) {
             self.truncate(record.pos)?;
         } else {
+            #[cfg(agdb_verif)]
+            crate::verif::hit("storage.remove.free_region");
             self.free_a_region(record.pos, record.size)?;
         }
 
@@ -295,6 +299,8 @@ impl<D: StorageData> Storage<D> {
         current_pos: u64,
     ) -> Result<u64, DbError> {
         if record.pos != current_pos {
+            #[cfg(agdb_verif)]
+            crate::verif::hit("storage.optimize.moved");
             let bytes = self.read_value(&record)?.to_vec();
             record.pos = current_pos;
             self.records.set_pos(record.index, current_pos);
@@ -420,6 +426,8 @@ impl<D: StorageData> Storage<D> {
         free_pos: u64,
         free_size: u64,
     ) -> Result<(), DbError> {
+        #[cfg(agdb_verif)]
+        crate::verif::hit("storage.enlarge_move_to");
         let mut bytes = self.data.read(record.value_start(), record.size)?.to_vec();
         bytes.resize(new_size as usize, 0_u8);
         self.free_a_region(record.pos, record.size)?;
@@ -449,6 +457,8 @@ impl<D: StorageData> Storage<D> {
         new_size: u64,
         free_size: u64,
     ) -> Result<(), DbError> {
+        #[cfg(agdb_verif)]
+        crate::verif::hit("storage.enlarge_in_place");
         let old_size = record.size;
         let old_end = record.end();
         let header_size = STORAGE_RECORD_SIZE;
@@ -470,6 +480,8 @@ impl<D: StorageData> Storage<D> {
     }
 
     fn enlarge_at_end(&mut self, record: &mut StorageRecord, new_size: u64) -> Result<(), DbError> {
+        #[cfg(agdb_verif)]
+        crate::verif::hit("storage.enlarge_at_end");
         let old_size = record.size;
         record.size = new_size;
         self.records.set_size(record.index, new_size);
@@ -539,6 +551,8 @@ impl<D: StorageData> Storage<D> {
     }
 
     fn move_to_end(&mut self, record: &mut StorageRecord, new_size: u64) -> Result<(), DbError> {
+        #[cfg(agdb_verif)]
+        crate::verif::hit("storage.move_to_end");
         let mut bytes = self.read_value(record)?.to_vec();
         bytes.resize(new_size as usize, 0_u8);
         let len = self.len();
@@ -610,6 +624,8 @@ impl<D: StorageData> Storage<D> {
 
     fn shrink_value(&mut self, record: &mut StorageRecord, new_size: u64) -> Result<(), DbError> {
         if self.is_at_end(record) {
+            #[cfg(agdb_verif)]
+            crate::verif::hit("storage.shrink.at_end");
             record.size = new_size;
             self.records.set_size(record.index, new_size);
             self.data.write(
@@ -621,6 +637,8 @@ impl<D: StorageData> Storage<D> {
             let free_size = record.size - new_size;
 
             if free_size >= STORAGE_RECORD_SIZE {
+                #[cfg(agdb_verif)]
+                crate::verif::hit("storage.shrink.split");
                 record.size = new_size;
                 self.records.set_size(record.index, new_size);
                 self.data.write(
